@@ -29,14 +29,13 @@ def run(ctx):
                        "was observed, e.g. step %s fields %s after %s" % (
                            tot["diverged"], div[0].get("a"), div[0].get("fields"),
                            [p.get("act") for p in div[0].get("prefix", [])]))
-    ideal, big = mdl["ideal"], mdl["r_big"]
+    ideals, bigs = mdl["ideals"], mdl["r_bigs"]
     mid = rp["paths"][len(rp["paths"]) // 2]
-    sm, bg = mdl["small"], mdl["big"]
     ctx.evidence("model_checking",
-                 assumptions=["two agents, %d connection generations (%d in the replayed instance), dials by either side at any "
-                              "time, keepalive failure at %s (replayed: %s; %d stuck keepalive iterations), %d Manager.Disconnect, "
-                              "%d announcement, %d relayed stream; registerConnection as check + insert steps in the checked instance"
-                              % (bg[0], sm[0], "/".join(bg[4]), "/".join(sm[4]), bg[5], bg[2], bg[1], bg[3]),
+                 assumptions=["two agents, 2 connection generations; instances as (MaxLink, MaxAnn, MaxApi, MaxRelay, KaOf, MaxKa, "
+                              "SplitRegister, ApiOf): checked exhaustively %s; every transition replayed on real agents: %s "
+                              "(keepalive failures) and %s (Manager.Disconnect = unregister without callback)"
+                              % (mdl["bigs"], mdl["small"], mdl["apiinst"]),
                               "handleDisconnect and the agent's disconnect callback are one step (a registration completing "
                               "between the slot update and the callback would need a whole handshake inside that window)",
                               "closing a link is seen by the read loops of both ends at once (in-memory links; half-open "
@@ -45,9 +44,11 @@ def run(ctx):
                               "write that the harness holds inside the transport return an error; the timeout branch "
                               "(unreachable while writes succeed) is not exercised",
                               "RegCheck/RegInsert interleavings are model-checked and provoked on the code by the race driver "
-                              "(lockstep at the manager mutex + free-running), not replayed step by step"],
-                 states=big.distinct, transitions=big.generated,
-                 replayed_states=ideal.distinct, replayed_transitions=rp["edges"],
+                              "(lockstep at the manager mutex + free-running), not replayed step by step",
+                              "Manager.Disconnect(id) stands for DisconnectAll as well (same mechanism: slot cleared, connection "
+                              "closed, no callback)"],
+                 states=sum(r.distinct for r in bigs + ideals), transitions=sum(r.generated for r in bigs + ideals),
+                 replayed_states=sum(r.distinct for r in ideals), replayed_transitions=rp["edges"],
                  traces_validated_against_impl=tot["paths"] + len(rp["scenarios"]),
                  exhaustive=True,
                  replayed_paths=tot["paths"], replayed_steps=tot["steps"],
